@@ -361,3 +361,87 @@ Definition canon (k : tok) (payload : bytes) : tk :=
   | _ => if is_some (multi_find k multi_table) then KMulti k
          else if is_some (punct_byte k) then KPunct k else KKw k
   end.
+
+(* ------------------------------------------------------------------ worked examples
+   (used by Properties/C10.v to show that the hypotheses of the theorems are satisfiable and
+   where exactly the boundary of the property lies)
+
+   ex_tokens:  make small get 1 if to say ( small small pass 2.5 ) start shout ( "a\n{small}" ) end
+               if not so start end
+   ex_layout_line: one line, a single space only where needed.
+   ex_layout_tall: a leading comment (CR LF), one token per line with LF / CRLF / FF / TAB,
+               comments after some tokens, TAB LF and CR LF SPACE FF inside the keywords, and a
+               last comment without line break. *)
+Definition ex_tokens : list tk :=
+  [ KKw TMake;
+    KIdent [115%Z; 109%Z; 97%Z; 108%Z; 108%Z];
+    KKw TGet;
+    KNumber [49%Z] None;
+    KMulti TIfToSay;
+    KPunct TLParen;
+    KIdent [115%Z; 109%Z; 97%Z; 108%Z; 108%Z];
+    KMulti TSmallPass;
+    KNumber [50%Z] (Some [53%Z]);
+    KPunct TRParen;
+    KKw TStart;
+    KIdent [115%Z; 104%Z; 111%Z; 117%Z; 116%Z];
+    KPunct TLParen;
+    KString 34%Z [([97%Z], 110%Z)] [123%Z; 115%Z; 109%Z; 97%Z; 108%Z; 108%Z; 125%Z];
+    KPunct TRParen;
+    KKw TEnd;
+    KMulti TIfNotSo;
+    KKw TStart;
+    KKw TEnd ].
+
+Definition ex_layout_line : layout :=
+  {| l_lead := []; l_slots :=
+    [ {| s_inner := []; s_after := [SWs 32%Z] |};
+      {| s_inner := []; s_after := [SWs 32%Z] |};
+      {| s_inner := []; s_after := [SWs 32%Z] |};
+      {| s_inner := []; s_after := [SWs 32%Z] |};
+      {| s_inner := [[32%Z]; [32%Z]]; s_after := [] |};
+      {| s_inner := []; s_after := [] |};
+      {| s_inner := []; s_after := [SWs 32%Z] |};
+      {| s_inner := [[32%Z]]; s_after := [SWs 32%Z] |};
+      {| s_inner := []; s_after := [] |};
+      {| s_inner := []; s_after := [] |};
+      {| s_inner := []; s_after := [SWs 32%Z] |};
+      {| s_inner := []; s_after := [] |};
+      {| s_inner := []; s_after := [] |};
+      {| s_inner := []; s_after := [] |};
+      {| s_inner := []; s_after := [] |};
+      {| s_inner := []; s_after := [SWs 32%Z] |};
+      {| s_inner := [[32%Z]; [32%Z]]; s_after := [SWs 32%Z] |};
+      {| s_inner := []; s_after := [SWs 32%Z] |};
+      {| s_inner := []; s_after := [] |} ];
+     l_tail := None |}.
+
+Definition ex_layout_tall : layout :=
+  {| l_lead := [SComment [32%Z; 104%Z; 101%Z; 97%Z; 100%Z] 13%Z; SWs 10%Z; SWs 10%Z]; l_slots :=
+    [ {| s_inner := []; s_after := [SWs 10%Z] |};
+      {| s_inner := []; s_after := [SWs 9%Z; SComment [32%Z; 118%Z] 10%Z] |};
+      {| s_inner := []; s_after := [SWs 32%Z; SWs 13%Z; SWs 10%Z] |};
+      {| s_inner := []; s_after := [SWs 10%Z; SWs 10%Z] |};
+      {| s_inner := [[9%Z; 10%Z]; [13%Z; 10%Z; 32%Z; 12%Z]]; s_after := [SWs 10%Z] |};
+      {| s_inner := []; s_after := [SWs 10%Z] |};
+      {| s_inner := []; s_after := [SWs 12%Z; SWs 10%Z] |};
+      {| s_inner := [[9%Z; 10%Z]]; s_after := [SWs 32%Z; SComment [32%Z; 99%Z; 109%Z; 112%Z] 13%Z] |};
+      {| s_inner := []; s_after := [SWs 32%Z] |};
+      {| s_inner := []; s_after := [SWs 10%Z] |};
+      {| s_inner := []; s_after := [SWs 13%Z; SWs 10%Z] |};
+      {| s_inner := []; s_after := [SWs 32%Z] |};
+      {| s_inner := []; s_after := [] |};
+      {| s_inner := []; s_after := [] |};
+      {| s_inner := []; s_after := [SComment [32%Z; 115%Z] 10%Z] |};
+      {| s_inner := []; s_after := [SWs 10%Z] |};
+      {| s_inner := [[9%Z; 10%Z]; [13%Z; 10%Z; 32%Z; 12%Z]]; s_after := [SWs 10%Z] |};
+      {| s_inner := []; s_after := [SWs 10%Z] |};
+      {| s_inner := []; s_after := [SWs 10%Z] |} ];
+     l_tail := Some [32%Z; 98%Z; 121%Z; 101%Z] |}.
+
+
+(* `if`, a comment, `to say`: three identifiers (the look-ahead does not skip comments) *)
+Definition ex_comment_in_keyword : bytes := [105%Z; 102%Z; 32%Z; 35%Z; 99%Z; 10%Z; 32%Z; 116%Z; 111%Z; 32%Z; 115%Z; 97%Z; 121%Z].
+(* the identifier `small`, then the operator `pass`: apart only because of the comment *)
+Definition ex_small_comment_pass : bytes := [115%Z; 109%Z; 97%Z; 108%Z; 108%Z; 32%Z; 35%Z; 99%Z; 10%Z; 112%Z; 97%Z; 115%Z; 115%Z; 32%Z; 51%Z].
+Definition ex_small_blank_pass : bytes := [115%Z; 109%Z; 97%Z; 108%Z; 108%Z; 32%Z; 10%Z; 112%Z; 97%Z; 115%Z; 115%Z; 32%Z; 51%Z].
